@@ -270,6 +270,25 @@ def instrument(res):
         loops = re.findall(r"Loop (\S+):\n\s+file (\S+) line (\d+)", open(os.path.join(d, "loops.txt")).read())
         sets = []
         for pu in spec["pre_unwind"]:
+            if "function" in pu:
+                # every loop of that function except the hooked ones (those carry
+                # a loop contract): independent of how the loop is spelled
+                n = 0
+                for (lid, f, ln) in loops:
+                    if lid.rsplit(".", 1)[0] != pu["function"]:
+                        continue
+                    try:
+                        text = open(f, errors="replace").read().splitlines()[int(ln) - 1]
+                    except (OSError, IndexError):
+                        text = ""
+                    if "REPROC_VERIF_LOOP(" in text:
+                        continue
+                    sets.append("%s:%d" % (lid, pu["bound"]))
+                    n += 1
+                if n == 0:
+                    res.problems.append("pre-unwind: no loop without hook found in %s" % pu["function"])
+                    return
+                continue
             path = os.path.join(SRC, pu["file"])
             lines = [i for i, l in enumerate(open(path, errors="replace"), 1) if pu["text"] in l]
             ids = [lid for (lid, f, ln) in loops if os.path.normpath(f) == os.path.normpath(path) and int(ln) in lines]
@@ -331,9 +350,19 @@ def parse_results(res, path):
             m = re.search(r"(\d+) variables, (\d+) clauses", e["messageText"])
             if m:
                 res.sat_size = (int(m.group(1)), int(m.group(2)))
-        if "result" in e:
+        single = None
+        if "property" in e and "status" in e and "result" not in e:
+            # --stop-on-fail prints the one refuted property as an object of its own;
+            # its source location is that of the failing step of the trace
+            single = dict(e)
+            single["status"] = "FAILURE" if str(e["status"]).lower().startswith("fail") else str(e["status"]).upper()
+            for st in reversed(e.get("trace", [])):
+                if st.get("stepType") == "failure":
+                    single["sourceLocation"] = st.get("sourceLocation", {})
+                    break
+        if "result" in e or single is not None:
             found = True
-            for r in e["result"]:
+            for r in (e["result"] if single is None else [single]):
                 sl = r.get("sourceLocation", {})
                 f = sl.get("file", "")
                 if f and not os.path.isabs(f):
@@ -391,6 +420,11 @@ def run_harness(spec, tier, extra_defs=(), keep=False, trace_props=()):
         rc, wall = run(cmd, out, timeout)
         if rc == -999:
             res.problems.append("cbmc timed out after %ds" % timeout)
+            if not trace_props:
+                fb = stop_on_fail_fallback(spec, tier, extra_defs, timeout)
+                if fb is not None:
+                    fb.wall_s = time.time() - t0
+                    return fb
         elif rc not in (0, 10):
             err = open(out + ".err").read()
             res.problems.append("cbmc exit code %d: %s" % (rc, err[-600:]))
@@ -418,6 +452,32 @@ def run_harness(spec, tier, extra_defs=(), keep=False, trace_props=()):
     res.wall_s = time.time() - t0
     if not trace_props:
         guards(res)
+    return res
+
+
+def stop_on_fail_fallback(spec, tier, extra_defs, timeout):
+    """When deciding all obligations at once ran out of time: rebuild without the
+    canaries (which must fail) and ask only for the first refuted obligation. A
+    refutation found this way is a verdict (the obligation is named and has a
+    counterexample); finding none is not (the vacuity guards need the full run)."""
+    defs = list(extra_defs) + ["-DVERIF_NO_CANARY"]
+    res = build_harness(spec, tier, defs)
+    if not res.problems:
+        instrument(res)
+    if res.problems:
+        return None
+    cmd = cbmc_cmd(res, ["--stop-on-fail"])
+    res.cmds.append(" ".join(cmd))
+    out = os.path.join(res.dir, "cbmc.json")
+    rc, _ = run(cmd, out, timeout)
+    if rc != 10:
+        return None
+    parse_results(res, out)
+    if not failures(res):
+        return None
+    res.extra_defs = defs
+    res.partial = ("all-obligations run timed out after %ds; this result is the first refuted obligation of a "
+                   "--stop-on-fail run without canaries (other obligations undecided)" % timeout)
     return res
 
 
@@ -483,6 +543,10 @@ def failures(res, prop=None):
             continue
         if prop is None:
             out.append(ob)
+        elif getattr(res, "partial", None):
+            # stop-on-fail fallback: one refuted obligation is known, the rest of the
+            # harness is undecided; every property the harness serves has lost a premise
+            out.append(ob)
         elif prop in res.spec.get("assumed_by", []):
             # another harness of `prop` assumes this function's whole contract
             # (replaced by hand): every obligation of this harness is a premise
@@ -495,6 +559,11 @@ def failures(res, prop=None):
             # property the harness serves
             if not (owners & set(res.spec["props"])):
                 owners = set(res.spec["props"])
+            # the representation invariant is the induction hypothesis of every
+            # property stated over API histories: a function that breaks it
+            # invalidates every property its harness serves
+            if lab.endswith(".invariant_kept"):
+                owners |= set(res.spec["props"])
             if prop in owners:
                 out.append(ob)
         else:
@@ -503,6 +572,10 @@ def failures(res, prop=None):
             # memory-safety / undefined-behaviour checks to C14 wherever the
             # harness serves those properties
             owners = set(res.spec.get("safety_props", res.spec["props"][:1]))
+            # a loop invariant (or the frame of a loop / function) that no longer
+            # holds takes away the premise of every clause proved through it
+            if ob["cls"].startswith(("loop_invariant", "loop_variant", "frame")):
+                owners |= set(res.spec["props"])
             if ob["cls"] == "memory-leak" and "C05" in res.spec["props"]:
                 owners.add("C05")
             if ob["cls"] in ("pointer_dereference", "pointer_arithmetic", "pointer_primitives", "array_bounds",
@@ -595,7 +668,7 @@ def write_replay(prop, res, ob, tier):
     """Get CBMC's counterexample for one refuted obligation, try it natively."""
     os.makedirs(os.path.join(VERIF, "replays"), exist_ok=True)
     spec = res.spec
-    tr = run_harness(spec, tier, trace_props=[ob["id"]])
+    tr = run_harness(spec, tier, extra_defs=getattr(res, "extra_defs", ()), trace_props=[ob["id"]])
     trace = None
     for o in tr.obligations:
         if o["id"] == ob["id"] and "trace" in o:
@@ -810,6 +883,7 @@ def write_evidence(prop, tier, seed, results, viol, wall):
             "sat_variables_clauses": getattr(r, "sat_size", None), "wall_s": round(r.wall_s, 1),
             "bounded": s.get("bounded"), "no_verdict": r.problems,
             "second_backend": getattr(r, "cross_check", None),
+            "partial": getattr(r, "partial", None),
             "what": s.get("what", ""),
         })
         if s.get("enforce"):
